@@ -55,6 +55,14 @@ CHECKS = {
          "Random subsets of removable statements hidden behind '!$ ' / 'c$' / '*$' sentinels incl. continuation lines; "
          "enabled parse == original tree, disabled parse == tree of the program without them, kept comments == hidden lines.",
          TRUST, "DESIGN.md 5 C15"),
+ "C16": ("model-based property testing (scope-tree generator with ground-truth symbol tables and shadowing; reference resolver)",
+         "Random nests of program units, contained subprograms and BLOCKs (also inside back-tracked non-block DOs) with "
+         "declarations/USE statements shadowing intrinsic names; the forest of symbol tables and the node class of every "
+         "reference are compared with the model.", TRUST, "DESIGN.md 5 C16"),
+ "C17": ("differential property-based testing (f2003 parser vs f2008 parser on generated programs; catalogue of 2008-only constructs)",
+         "Generated F2003 programs must regenerate identically under both parsers (case-insensitively when F2008 intrinsics "
+         "are referenced); generated programs with a 2008-only production must be rejected by the 2003 parser and accepted "
+         "by the 2008 parser; each catalogue member is also checked in isolation.", TRUST, "DESIGN.md 5 C17"),
  "C01": ("property-based round-trip (Hypothesis-driven program generator; parse/print/parse fixpoint oracle)",
          "Random programs from a structured Fortran generator are parsed, printed, re-parsed and re-printed; "
          "trees and texts must agree. Exploration is the right level: the domain is an infinite grammar.",
@@ -62,6 +70,6 @@ CHECKS = {
 }
 NOT_APPLICABLE = {
  pid: "check not built yet (work in progress; see DESIGN.md 5)" for pid in
- [ "C09", "C16", "C17",
+ [ "C09",
   "C19", "C20"]
 }
